@@ -88,20 +88,22 @@ func TestC15_Snapshots(t *testing.T) {
 			case 0, 1, 2, 3, 4:
 				steps[i] = c15Step{Kind: "gen"}
 			case 5, 6:
-				steps[i] = c15Step{Kind: "refilter"}
+				steps[i] = c15Step{Kind: "refilter", Key: rapid.IntRange(1, 2).Draw(t, "toFilter")}
 			default:
 				steps[i] = c15Step{Kind: "update", Key: rapid.IntRange(0, m-1).Draw(t, "key")}
 			}
 		}
-		// filters: A accepts everything, B accepts the even keys (label x=1)
+		// filters: A accepts everything, B the even keys (label x=1), C the odd keys (x=2): A<->B and
+		// A<->C only evict or only admit, B<->C does both at once (a refilter applied as "evict, then
+		// admit" shows an intermediate content that is no complete state)
 		labelsOf := func(k int) map[string]string {
 			if k%2 == 0 {
 				return map[string]string{"x": "1"}
 			}
 			return map[string]string{"x": "2"}
 		}
-		filters := []filter.Filter{filter.Null(), filter.Labels(map[string]string{"x": "1"})}
-		accepts := func(f, k int) bool { return f == 0 || k%2 == 0 }
+		filters := []filter.Filter{filter.Null(), filter.Labels(map[string]string{"x": "1"}), filter.Labels(map[string]string{"x": "2"})}
+		accepts := func(f, k int) bool { return f == 0 || (f == 1 && k%2 == 0) || (f == 2 && k%2 == 1) }
 
 		// script bookkeeping: content[i] after call i; content[0] = initial (empty)
 		contents := make([]string, nsteps+1)
@@ -126,7 +128,7 @@ func TestC15_Snapshots(t *testing.T) {
 			}
 			return l
 		}
-		nrefilter := 0
+		nrefilter, nswap := 0, 0
 		for i, s := range steps {
 			switch s.Kind {
 			case "gen":
@@ -150,7 +152,10 @@ func TestC15_Snapshots(t *testing.T) {
 				}
 			case "refilter":
 				nrefilter++
-				curF = 1 - curF
+				if (curF == 1 || curF == 2) && (curF+s.Key)%3 != 0 {
+					nswap++
+				}
+				curF = (curF + s.Key) % 3
 				calls[i] = call{kind: "refilter", list: allParent(), f: curF}
 				cur = map[int]int{}
 				for k, v := range parent {
@@ -328,8 +333,8 @@ func TestC15_Snapshots(t *testing.T) {
 		nt := nreaders >= 4 && (nsteps >= 50 || m > 6) && nrefilter >= 1
 		nreads := atomic.LoadInt64(&reads)
 		statCase("C15", hashString(desc), nt, func() interface{} {
-			return map[string]interface{}{"objects": m, "readers": nreaders, "writer_calls": nsteps, "refilters": nrefilter, "reads_checked": nreads, "first_steps": fmt.Sprint(steps[:min(8, len(steps))])}
-		}, fmt.Sprintf("readers_ge4=%v", nreaders >= 4), fmt.Sprintf("large_state=%v", m > 6))
+			return map[string]interface{}{"objects": m, "readers": nreaders, "writer_calls": nsteps, "refilters": nrefilter, "refilters_evicting_and_admitting": nswap, "reads_checked": nreads, "first_steps": fmt.Sprint(steps[:min(8, len(steps))])}
+		}, fmt.Sprintf("readers_ge4=%v", nreaders >= 4), fmt.Sprintf("large_state=%v", m > 6), fmt.Sprintf("refilter_between_disjoint_filters=%v", nswap > 0))
 		statExtraAdd("C15", "reads_checked", nreads)
 	})
 }
